@@ -270,6 +270,83 @@ def l1_limit_rules(F, r):
         r.fail("check_shift_limits: coverage", f"only {sorted(found)} of distance / duration / size limits are compared", F.loc(root))
 
 
+def l2_recharge_accumulator(F, r):
+    """recharge limit: the distance compared with `max_distance` is, on EVERY alternative, the distance accumulated since the last station INCLUDING the leg that ends at the
+    current stop — also when that stop is a station (the counter is reset only AFTER the comparison). Must-derive dataflow from the fold accumulator and the leg length."""
+    root = CHK + "::limits::check_recharge_limits"
+    if root not in F.fns:
+        raise AnchorError(root)
+    n = 0
+    for g in F.family(root):
+        fn = F.fns[g]
+        for bi, si, st in mir.stmts(fn):
+            rv = st["r"]
+            if rv["k"] != "bin" or rv.get("op") not in ("Lt", "Gt", "Le", "Ge") or rv.get("ty") not in ("f64", "f32"):
+                continue
+            from . import c01
+            lim = [i for i, o in enumerate(rv["o"]) if "max_distance" in c01._toks_deep(fn, o)]
+            if len(lim) != 1:
+                continue
+            n += 1
+            val = rv["o"][1 - lim[0]]
+            # the accumulator: the f64 parameter of this fold closure
+            accs = [i for i in range(2, fn["argc"] + 1) if fn["locals"][i] in ("f64", "f32")] if fn["kind"] == "Closure" else []
+            if len(accs) != 1:
+                r.ok("check_recharge_limits: accumulated distance", "not decided: the running distance is not a fold accumulator parameter")
+                continue
+            acc = accs[0]
+
+            def from_acc(f_, kind, x, acc=acc, fn=fn):
+                return kind == "place" and f_ is fn and x["l"] == acc and not x["p"]
+
+            def from_leg(f_, kind, x):
+                return kind == "place" and any(isinstance(e, list) and e[0] == "f" and e[2] == "distance" for e in x["p"])
+            a_ok = mir.must_derive(F, fn, val, from_acc)
+            l_ok = mir.must_derive(F, fn, val, from_leg)
+            if a_ok is False or l_ok is False:
+                what = "the distance accumulated so far" if a_ok is False else "the length of the current leg"
+                r.fail("check_recharge_limits: accumulated distance", f"on some alternative the value compared with max_distance does not contain {what} (e.g. the counter is reset before the "
+                       "comparison when the stop is a station): a leg that ends at a station out of range is accepted", F.loc(g, st.get("ln")))
+            elif a_ok is None or l_ok is None:
+                r.ok("check_recharge_limits: accumulated distance", "not decided (value completed in place)")
+            else:
+                r.ok("check_recharge_limits: accumulated distance", "compared value = accumulator + current leg on every alternative")
+    if n == 0:
+        r.ok("check_recharge_limits: accumulated distance", "not decided: no float comparison with a `max_distance` field found")
+
+
+def a5_shared_resource_summed(F, r):
+    """shared reload resource: what is compared with the resource's capacity is the SUM of the consumption of all reload intervals that use the resource (same tour or different
+    tours) — the per-resource aggregation adds loads (`*entry + consumption`); collecting the (resource, consumption) pairs into a map keeps only the last interval"""
+    root = CHK + "::capacity::check_resource_consumption"
+    if root not in F.fns:
+        raise AnchorError(root)
+    adds = []
+    keyed = False
+    overwrite = None
+    for g in F.family(root):
+        fn = F.fns[g]
+        for bi, t in mir.calls(fn):
+            c = t["callee"]
+            if c in ("core::ops::arith::Add::add", "core::ops::arith::AddAssign::add_assign") and any("MultiDimLoad" in x for x in t["ga"]):
+                srcs = set()
+                for a in t["args"]:
+                    _, crossed = mir.deep_leaves(fn, a)
+                    srcs |= {x.split("::")[-1] for x in crossed}
+                adds.append((g, t, srcs))
+            if c.split("::")[-1] in ("entry", "get_mut") and "HashMap" in c:
+                keyed = True
+            if c.endswith("Iterator::collect") and not t["dest"]["p"] and "HashMap<" in (fn["locals"][t["dest"]["l"]] or "") and "MultiDimLoad" in (fn["locals"][t["dest"]["l"]] or ""):
+                overwrite = (g, t)
+    summed = [x for x in adds if x[2] & {"or_default", "or_insert", "or_insert_with", "entry", "get_mut", "get", "remove", "unwrap_or_default", "and_modify"}] or (adds if keyed else [])
+    if summed:
+        r.ok("check_resource_consumption: per-resource sum", "consumption of one resource is accumulated with `+` on the map entry")
+    else:
+        where = F.loc(overwrite[0], overwrite[1]["ln"]) if overwrite else F.loc(root)
+        r.fail("check_resource_consumption: per-resource sum", "the consumption of the reload intervals of one resource is not added up (pairs collected into a map overwrite each other): a resource "
+               "used by two intervals is checked against the last interval only, over-consumption is accepted", where)
+
+
 def k1_tour_identity(F, r):
     """a tour is identified by (vehicle id, shift index): the `job split over tours` rule compares both, so a job served on two shifts of one vehicle is a breach"""
     from . import c01
@@ -292,6 +369,65 @@ def k1_tour_identity(F, r):
                 r.fail("check_jobs_presence: tour identity", "tours are told apart by the vehicle id alone: a job split over two shifts of the same vehicle is accepted", F.loc(g, t["ln"]))
     if not hits:
         r.fail("check_jobs_presence: tour identity", "the tour a job was first seen in is no longer compared with the current tour", F.loc(root))
+
+
+def k2_relation_shift_default(F, r):
+    """a relation names its tour by vehicle id and shift index, and a MISSING shift index means shift 0 (documented): the tour lookup of the relation rule, evaluated over
+    shift_index in {None, Some(i)} and every ordering of the compared values, matches a tour iff its vehicle id equals AND its shift index equals i (0 when missing)"""
+    from .. import ordeval as oe
+    root = CHK + "::relations::get_tour_by_vehicle_id"
+    if root not in F.fns:
+        raise AnchorError(root)
+    cls = [c for c in F.children.get(root, []) if F.fns[c]["locals"][0] == "bool" and any("shift_index" in u[0] for u in F.fns[c].get("upvars", []))]
+    if len(cls) != 1:
+        r.ok("relation tour lookup", "not decided: the lookup predicate is not a closure capturing the relation's shift index")
+        return
+    c = cls[0]
+    cfn = F.fns[c]
+
+    def m_unwrap_or(it, args, heap, rel):
+        a = oe.strip_refs(args[0]) if args[0] and args[0][0] == "ref" else args[0]
+        if a == oe.NONE:
+            return args[1]
+        if a and a[0] == "some":
+            return a[1]
+        return NotImplemented
+
+    def m_unwrap_or_default(it, args, heap, rel):
+        a = oe.strip_refs(args[0]) if args[0] and args[0][0] == "ref" else args[0]
+        if a == oe.NONE:
+            return ("int", 0)
+        if a and a[0] == "some":
+            return a[1]
+        return NotImplemented
+    for label, si, want in (("missing", oe.NONE, "k0"), ("given", oe.some(oe.sym("idx")), "idx")):
+        ups = [oe.ref(si) if "shift" in nm else oe.ref(oe.sym("vid")) for nm, ty in cfn["upvars"]]
+        it = oe.Interp(F, c, {1: oe.ref(("closure", c, ups)), 2: oe.ref(oe.ref(oe.sym("tour")))}, fresh=True, enum_results=True,
+                       call_models={"Option::<T>::unwrap_or": m_unwrap_or, "Option::<T>::unwrap_or_default": m_unwrap_or_default})
+        it.int_symbols = True
+        try:
+            paths = it.explore(max_paths=200)
+        except oe.Undecided as e:
+            r.ok(f"relation tour lookup [shift index {label}]", f"not decided: predicate not evaluable ({e})")
+            continue
+        for p in paths:
+            rels = {}
+            for a in p.assumptions:
+                if len(a) == 3 and isinstance(a[2], str) and a[2] in "LEG":
+                    rels[(a[0], a[1])] = a[2]
+                    rels[(a[1], a[0])] = oe.rev(a[2])
+            veh = rels.get(("tour.vehicle_id", "vid"))
+            shf = rels.get(("tour.shift_index", want))
+            desc = f"vehicle {'=' if veh == 'E' else ('?' if veh is None else '!=')}, shift {'=' if shf == 'E' else ('not compared' if shf is None else '!=')}"
+            inst = f"relation tour lookup [shift index {label}; {desc}]"
+            expected = veh == "E" and shf == "E"
+            if p.ret == ("bool", True) and not expected:
+                r.fail(inst, f"a tour is taken for the relation's tour although its shift index was not found equal to {'0 (the documented default of a missing shiftIndex)' if label == 'missing' else 'the given one'}: "
+                       "relation jobs served in another shift of the vehicle are accepted, valid solutions listing another shift first are rejected", F.loc(c))
+            elif p.ret == ("bool", False) and expected:
+                r.fail(inst, "the relation's own tour is not recognised", F.loc(c))
+            else:
+                r.ok(inst, "match" if expected else "no match")
 
 
 def t1_routing_tolerance(F, r):
@@ -347,6 +483,7 @@ def run(ctx):
     ctx.run("C12-A1", "every checker rule is reachable from CheckerContext::check; breach classes map to wired leaves; groups aggregate", a1_all_wired, floor=30)
     ctx.run("C12-A2", "no Result produced inside the checker is dropped", a2_no_dropped, floor=1)
     ctx.run("C12-A4", "capacity verdicts are component-wise (can_fit), never the partial order of multi-dimensional loads", a4_componentwise_capacity, floor=1)
+    ctx.run("C12-A5", "shared resource: consumption of all intervals of one resource is summed before the comparison", a5_shared_resource_summed, floor=1)
     try:
         from . import c01
         ctx.run("C01-O4", "can_fit is asked of the capacity / available resource about the load (roles not swapped)", c01.o4_can_fit_roles, floor=8)
@@ -355,6 +492,8 @@ def run(ctx):
         pass
     ctx.run("C12-T1", "routing rule: mismatch iff |recomputed - reported| > 1, like compared with like", t1_routing_tolerance, floor=4)
     ctx.run("C12-K1", "a tour is identified by (vehicle id, shift index) in the job-presence rule", k1_tour_identity, floor=1)
+    ctx.run("C12-K2", "relation rule: a missing shift index means shift 0 (finite evaluation of the tour lookup)", k2_relation_shift_default, floor=1)
     ctx.run("C12-L1", "limit rules: breach iff the tour's own distance / duration / activity count exceeds the limit", l1_limit_rules, floor=1)
+    ctx.run("C12-L2", "recharge limit: the compared distance contains the accumulator and the current leg on every alternative", l2_recharge_accumulator, floor=1)
     ctx.run("C12-Q1", "no checker comparison relates a value to itself (a constant verdict)", q1_no_self_comparison, floor=1)
     ctx.run("C12-A3", "every leaf rule can fail: its error-producing sites are reachable", a3_rules_can_fail, floor=10)
